@@ -1,8 +1,8 @@
 (* C11 — decoding is independent of arrival order and of surplus shards. *)
 From Coq Require Import NArith Bool List Permutation FMapPositive.
 From RS.Gen Require Import Prelude GenConsts.
-From RS.Model Require Import Field Sched Codec Machine.
-From RS.Proofs Require Import PermFacts.
+From RS.Model Require Import Field Sched Codec Layout Machine.
+From RS.Proofs Require Import PermFacts MachineOps.
 Import ListNotations.
 Local Open Scope N_scope.
 
@@ -55,3 +55,41 @@ Example C11_example :
   | None => False
   end.
 Proof. vm_compute. split; [reflexivity|eexists; reflexivity]. Qed.
+
+
+(* surplus and order: whatever two accepted lists of adds are given to two decoders - any order,
+   any interleaving, any supersets of a sufficient set, any engines - as long as each add is the
+   original or the produced recovery shard of its index and there are at least original_count of
+   them, both decodes succeed and report the SAME shard for every original missing from both:
+   the original itself (C01_api_decode) *)
+Theorem C11_surplus : forall junk, (forall a b c, junk a b c < 65536) ->
+  forall c ee ed1 ed2 K R sb ep ep1 ep2 originals, validateb c K R sb = None ->
+  N.of_nat (length originals) = K -> Forall (byteshard sb) originals ->
+  forall w0 x0 x a0, enc_make c ee K R sb w0 = inl (x0, a0) -> enc_add_all x0 originals = inl x ->
+  forall v1 y01 y1 b1 adds1 v2 y02 y2 b2 adds2,
+  dec_make c ed1 K R sb v1 = inl (y01, b1) -> dec_adds y01 adds1 = inl y1 ->
+  dec_make c ed2 K R sb v2 = inl (y02, b2) -> dec_adds y02 adds2 = inl y2 ->
+  (forall a, In a adds1 \/ In a adds2 -> match a with AddO i s => s = nth (N.to_nat i) originals []
+                                     | AddR j s => s = nth (N.to_nat j) (encode_shards junk ep x) [] end) ->
+  K <= N.of_nat (length adds1) -> K <= N.of_nat (length adds2) ->
+  forall p1 p2 i, i < K -> (forall s, ~ In (AddO i s) adds1) -> (forall s, ~ In (AddO i s) adds2) ->
+  exists b y1' it1 pr1 y2' it2 pr2,
+    dec_decode junk ep1 y1 p1 = (y1', RDec it1 pr1) /\ dec_decode junk ep2 y2 p2 = (y2', RDec it2 pr2) /\
+    In (i, b) it1 /\ In (i, b) it2.
+Proof.
+  intros junk Hj c ee ed1 ed2 K R sb ep ep1 ep2 originals Hv Lo Bo w0 x0 x a0 Hx0 Hx v1 y01 y1 b1 adds1 v2 y02 y2 b2 adds2
+         Hy01 Hy1 Hy02 Hy2 Hadds C1 C2 p1 p2 i Hi N1 N2.
+  exists (nth (N.to_nat i) originals []).
+  destruct (rate_of c K R) eqn:Er.
+  - destruct (ops_high_decode junk Hj c ee ed1 K R sb ep ep1 originals Hv Er Lo Bo w0 x0 x a0 Hx0 Hx v1 y01 y1 b1 adds1 Hy01 Hy1
+                 (fun a Ha => Hadds a (or_introl Ha)) C1 p1 i Hi N1) as (y1' & it1 & pr1 & D1 & I1).
+    destruct (ops_high_decode junk Hj c ee ed2 K R sb ep ep2 originals Hv Er Lo Bo w0 x0 x a0 Hx0 Hx v2 y02 y2 b2 adds2 Hy02 Hy2
+                 (fun a Ha => Hadds a (or_intror Ha)) C2 p2 i Hi N2) as (y2' & it2 & pr2 & D2 & I2).
+    exists y1', it1, pr1, y2', it2, pr2. auto.
+  - destruct (ops_low_decode junk Hj c ee ed1 K R sb ep ep1 originals Hv Er Lo Bo w0 x0 x a0 Hx0 Hx v1 y01 y1 b1 adds1 Hy01 Hy1
+                 (fun a Ha => Hadds a (or_introl Ha)) C1 p1 i Hi N1) as (y1' & it1 & pr1 & D1 & I1).
+    destruct (ops_low_decode junk Hj c ee ed2 K R sb ep ep2 originals Hv Er Lo Bo w0 x0 x a0 Hx0 Hx v2 y02 y2 b2 adds2 Hy02 Hy2
+                 (fun a Ha => Hadds a (or_intror Ha)) C2 p2 i Hi N2) as (y2' & it2 & pr2 & D2 & I2).
+    exists y1', it1, pr1, y2', it2, pr2. auto.
+Qed.
+Print Assumptions C11_surplus.
